@@ -20,7 +20,7 @@ def content_stream(data, flate=False, extra=None):
     return Stream(d, raw)
 
 
-def build_pdf(objects, root, info=None, form="table", tape=None, pack=None, trailer_extra=None, eol=b"\n", order=None, flate_containers=True, encrypt=None, gens=None):
+def build_pdf(objects, root, info=None, form="table", tape=None, pack=None, trailer_extra=None, eol=b"\n", order=None, flate_containers=True, encrypt=None, gens=None, encrypt_skip=()):
     """Serialise {id: value} into a single-revision PDF.
 
     form: 'table' | 'stream' (xref stream; ``pack``: ids to store in one object stream).
@@ -36,7 +36,7 @@ def build_pdf(objects, root, info=None, form="table", tape=None, pack=None, trai
         trailer.update(trailer_extra)
 
     def enc(i, g, v):
-        return encrypt.encrypt_value(i, g, v) if encrypt is not None else v
+        return encrypt.encrypt_value(i, g, v) if encrypt is not None and i not in encrypt_skip else v
 
     if form == "table":
         for i in ids:
